@@ -25,7 +25,7 @@ _CLS = ("IterationFilter", "IterationIndexFilter", "RankFilter", "TimeRangeFilte
 FLOORS = {"quick": dict({"distinct_nontrivial": 100, "applications": 4000, "proper_subset_results": 1500, "decoded_name_filters": 150,
                          "time_range_boundary_hits": 50, "laws_checked": 1000, "frames_with_repeated_index_labels": 200,
                          "reused_filter_applications": 3000, "reused_filter_after_table_growth": 200,
-                         "traces_with_stream_0": 50, "frames_with_stale_end_column": 500}, **{f"purity[{c}].post": 100 for c in _CLS}),
+                         "traces_with_stream_0": 50, "frames_with_stale_end_column": 500, "frames_with_only_the_name_decoded": 800}, **{f"purity[{c}].post": 100 for c in _CLS}),
           "thorough": dict({"distinct_nontrivial": 2500, "applications": 100000, "proper_subset_results": 35000, "decoded_name_filters": 3500,
                             "time_range_boundary_hits": 1200, "laws_checked": 25000, "frames_with_repeated_index_labels": 3000,
                             "reused_filter_applications": 40000, "reused_filter_after_table_growth": 2500,
@@ -167,6 +167,8 @@ def rows_of(df) -> List[Dict[str, Any]]:  # noqa: ANN001
 
 def random_spec(rnd, info) -> Dict[str, Any]:  # noqa: ANN001
     kinds = ["iteration", "iteration_index", "time", "name", "gpu", "cpu", "memcpy", "rank"]
+    if info.get("name_only_decoded"):
+        kinds.remove("memcpy")          # MemCopyEventFilter reads encoded names and categories (documented); not applied to half-decoded frames
     k = rnd.choice(kinds)
     its = info["iterations"] or [5]
     if k == "iteration":
@@ -329,7 +331,7 @@ def run_case(case: Dict[str, Any], ctx: Any) -> core.CaseResult:
             r = rnd.choice(ranks)
             base = t.get_trace(r)
             kind = rnd.choice(["encoded", "encoded", "decoded_cols", "decoded_inplace", "rank_col", "rank_col_dup_index", "no_iteration", "empty",
-                               "no_end", "rebased"])
+                               "no_end", "rebased", "decoded_name_only", "decoded_name_projection"])
             if kind == "encoded":
                 df = base.copy()
             elif kind == "decoded_cols":
@@ -350,6 +352,13 @@ def run_case(case: Dict[str, Any], ctx: Any) -> core.CaseResult:
                     res.counters["frames_with_repeated_index_labels"] += 1
                 if rnd.random() < 0.5:
                     st.decode_df(df, create_new_columns=True)
+            elif kind in ("decoded_name_only", "decoded_name_projection"):
+                # only the name column expanded to strings (add_symbols_to_trace_df); the category stays encoded or is not there
+                df = base.copy()
+                st.add_symbols_to_trace_df(df, "name")
+                if kind == "decoded_name_projection":
+                    df = df[["index", "name", "ts", "dur", "stream", "correlation", "iteration", "end"]].copy()
+                res.counters["frames_with_only_the_name_decoded"] += 1
             elif kind == "no_iteration":
                 df = base.drop(columns=["iteration"]).copy()
             elif kind == "no_end":
@@ -369,11 +378,13 @@ def run_case(case: Dict[str, Any], ctx: Any) -> core.CaseResult:
                     break
             sym = st.get_sym_table()
             df["_uid"] = range(len(df))          # harness row identity (filters ignore unknown columns); labels may repeat
-            info = {"kind": {"no_iteration": "encoded", "empty": "encoded", "rank_col_dup_index": "rank_col", "no_end": "encoded", "rebased": "encoded"}.get(kind, kind), "string_name_col": name_col, "n_ranks": len(ranks),
+            info = {"kind": {"no_iteration": "encoded", "empty": "encoded", "rank_col_dup_index": "rank_col", "no_end": "encoded", "rebased": "encoded",
+                                     "decoded_name_only": "decoded_inplace", "decoded_name_projection": "decoded_inplace"}.get(kind, kind), "string_name_col": name_col, "n_ranks": len(ranks),
                     "iterations": sorted({int(x) for x in df["iteration"].tolist() if x >= 0}) if "iteration" in df.columns else [],
                     "starts": [int(x) for x in df["ts"].tolist()] or [0], "ends": [int(a + b) for a, b in zip(df["ts"].tolist(), df["dur"].tolist())] or [0],
                     "names": sorted({sym[x] if isinstance(x, int) else x for x in df["name"].tolist()}) or ["x"],
-                    "pass_table": kind != "decoded_inplace" and rnd.random() < (0.8 if kind in ("encoded", "no_iteration", "empty", "no_end", "rebased") else 0.4)}
+                    "name_only_decoded": kind in ("decoded_name_only", "decoded_name_projection"),
+                    "pass_table": kind not in ("decoded_inplace", "decoded_name_only", "decoded_name_projection") and rnd.random() < (0.8 if kind in ("encoded", "no_iteration", "empty", "no_end", "rebased") else 0.4)}
             n_f = rnd.choice([1, 1, 1, 2, 3, 4])
             specs = [random_spec(rnd, info) for _ in range(n_f)]
             built = [build(s, tf, st, info) for s in specs]
